@@ -9,7 +9,7 @@ def out_kind(line):
 
 def make_gen(scenario):
     def gen(rng, tier, n):
-        rounds = 150 if tier == "quick" else 1500
+        rounds = 60 if tier == "quick" else 150      # many short cases rather than few long ones (per-case watchdog)
         return [["%s %d %d" % (scenario, rng.randrange(1 << 30), rounds)] for _ in range(n)]
     return gen
 
